@@ -374,3 +374,50 @@ Proof.
     + apply nth_error_None in Ec. assert (i < List.length (p_got P)) by (apply nth_error_Some; congruence). lia.
   - rewrite nth_overflow in HL by (apply nth_error_None; exact Eg). exists 0. rewrite HL. reflexivity.
 Qed.
+
+(* ------------------------------------------------------------------ deciding legality (for examples) *)
+
+Definition handle_freshb (G : state) (h : nat) : bool :=
+  match nth_error (st_handles G) h with
+  | Some H => negb (h_closed H) && nilb (h_got H)
+  | None => true
+  end.
+Definition handle_unclosedb (G : state) (h : nat) : bool :=
+  match nth_error (st_handles G) h with Some H => negb (h_closed H) | None => true end.
+
+Definition op_legalb (G : state) (o : op) : bool :=
+  match o with
+  | OCopy h n => if Nat.leb 2 n then handle_freshb G h else true
+  | OConv h _ => handle_freshb G h
+  | OMerge hs => if Nat.leb 2 (List.length hs) then forallb (handle_freshb G) hs else true
+  | ORecv h _ => handle_unclosedb G h
+  | _ => true
+  end.
+
+Fixpoint run_legalb (fuel : nat) (G : state) (ops : list op) : bool :=
+  match ops with
+  | [] => true
+  | o :: r => op_legalb G o && run_legalb fuel (snd (do_op fuel G o)) r
+  end.
+
+Lemma handle_freshb_sound : forall G h, handle_freshb G h = true -> handle_fresh G h.
+Proof.
+  intros G h H H0 E. unfold handle_freshb in H. rewrite E in H. apply andb_prop in H. destruct H as [A B].
+  split; [destruct (h_closed H0); auto; discriminate | destruct (h_got H0); auto; discriminate].
+Qed.
+
+Lemma op_legalb_sound : forall G o, op_legalb G o = true -> op_legal G o.
+Proof.
+  intros G [cap | xs | h n | hs | h f | sid x | sid | h ch | h | k ch] H; unfold op_legalb, op_legal in *; auto.
+  - intros Hn. apply Nat.leb_le in Hn. rewrite Hn in H. apply handle_freshb_sound. exact H.
+  - intros Hn. apply Nat.leb_le in Hn. rewrite Hn in H. apply Forall_forall. intros h Hh.
+    apply handle_freshb_sound. rewrite forallb_forall in H. apply H. exact Hh.
+  - apply handle_freshb_sound. exact H.
+  - intros H0 E. unfold handle_unclosedb in H. rewrite E in H. destruct (h_closed H0); auto; discriminate.
+Qed.
+
+Lemma run_legalb_sound : forall fuel ops G, run_legalb fuel G ops = true -> run_pre op_legal fuel G ops.
+Proof.
+  intros fuel. induction ops as [|o r IH]; intros G H; simpl in *; auto.
+  apply andb_prop in H. destruct H as [A B]. split; [apply op_legalb_sound; exact A | apply IH; exact B].
+Qed.
